@@ -641,7 +641,13 @@ def engine_ttl_stream(chk, fr):
             for kind in ("canonical", "random"):
                 n += 1
                 url = "redis://c20-engine-%d:6379" % n
-                s, ea, pl = scn.start(instances=2, store_url=url, share_stores=False, execution_ttl=ttl)
+                try:
+                    s, ea, pl = scn.start(instances=2, store_url=url, share_stores=False, execution_ttl=ttl)
+                except Exception as e:      # noqa  (a store that raises while the engine starts / the machine is stored)
+                    chk.report("impl-violates-law", {"kind": "engine-ttl", "scenario": scn.name, "execution_ttl": ttl},
+                               impl={"raised": "%s: %s" % (type(e).__name__, str(e)[:200])},
+                               law="engine-level TTL: the engine starts and a definition is stored over the Redis-backed stores")
+                    continue
                 srv = fr.SERVERS[url]
                 bad, seen = None, set()
                 while s.steps < 400 and bad is None:
